@@ -249,6 +249,15 @@ fn simulate(c: &ReadCase) -> (Vec<(Vec<u8>, Vec<u8>)>, Vec<(Vec<u8>, Vec<u8>)>) 
         1 => { let n = f2.len() / 3; let moved: Vec<_> = f2.drain(f2.len() - n..).collect(); f1.extend(moved); }
         _ => {}
     }
+    // a fifth of the read sets hold 60 reads trimmed to exactly k bases (one split k-mer each)
+    if c.read_seed % 5 == 2 {
+        let src: Vec<Vec<u8>> = f1.iter().filter(|r| r.0.len() > c.k + 3).take(60).map(|r| r.0.clone()).collect();
+        for (i, s) in src.iter().enumerate() {
+            let st = (i * 7) % (s.len() - c.k + 1);
+            let read = (s[st..st + c.k].to_vec(), vec![b'I'; c.k]);
+            if i % 2 == 0 { f1.push(read) } else { f2.push(read) }
+        }
+    }
     // In an eighth of the read sets (k <= 41) one 100-base read is present 500 times in either file: its k-mers
     // occur exactly 1000 times, the last multiplicity the table can show
     if c.read_seed % 8 == 6 && c.k <= 41 {
